@@ -42,10 +42,12 @@ type findServer struct {
 	offTypes map[string]bool
 	// reuse: the handler hands every result over in the same buffers, which
 	// it refills for the next one (an iterator over a value store does so)
-	reuse  bool
-	ctxBuf []byte
-	mdBuf  []byte
-	ai     peer.AddrInfo
+	reuse bool
+	// noFlush: the handler's response writer cannot flush
+	noFlush bool
+	ctxBuf  []byte
+	mdBuf   []byte
+	ai      peer.AddrInfo
 }
 
 // wrapped adds the context a handler typically adds before reporting an error.
@@ -61,7 +63,19 @@ func (f *findServer) wrapped(err error) error {
 	return err
 }
 
+// bareWriter is a response writer with the three methods of the interface
+// and nothing more (no Flush): what a handler gets behind wrapping
+// middleware, http.TimeoutHandler for one.
+type bareWriter struct{ w http.ResponseWriter }
+
+func (b bareWriter) Header() http.Header         { return b.w.Header() }
+func (b bareWriter) Write(p []byte) (int, error) { return b.w.Write(p) }
+func (b bareWriter) WriteHeader(code int)        { b.w.WriteHeader(code) }
+
 func (f *findServer) ServeHTTP(w http.ResponseWriter, req *http.Request) {
+	if f.noFlush {
+		w = bareWriter{w}
+	}
 	rw, err := rwriter.New(w, req, f.opts...)
 	if err != nil {
 		err = f.wrapped(err)
@@ -204,7 +218,7 @@ func runC19(r *simkit.Run, c Cfg) {
 	http.DefaultTransport = net.Transport()
 	preferJSON := tp.Chance(1, 2, "preferJson")
 	mhType, cidType := "multihash", "cid"
-	fs := &findServer{r: r, index: map[string][]model.ProviderResult{}, wrap: tp.Choose(4, "errwrap"), reuse: tp.Chance(1, 3, "reuseBuffers")}
+	fs := &findServer{r: r, index: map[string][]model.ProviderResult{}, wrap: tp.Choose(4, "errwrap"), reuse: tp.Chance(1, 3, "reuseBuffers"), noFlush: tp.Chance(1, 4, "noFlush")}
 	fs.opts = append(fs.opts, rwriter.WithPreferJson(preferJSON))
 	fs.offTypes = map[string]bool{}
 	switch tp.Choose(8, "paths") {
@@ -607,7 +621,11 @@ func c19Raw(r *simkit.Run, t *simkit.Task, net *simkit.Net, fs *findServer, ctx 
 		for _, x := range net.Requests()[req0:] {
 			q = x
 		}
-		if q == nil || len(q.Flushes) != len(written) {
+		if fs.noFlush {
+			// a writer that cannot flush: the lines arrive when the handler
+			// returns
+			r.Probe("streaming-without-a-flusher")
+		} else if q == nil || len(q.Flushes) != len(written) {
 			n := 0
 			if q != nil {
 				n = len(q.Flushes)
